@@ -43,6 +43,17 @@ def ProxySocket_onUpstreamReadyRead (env : Env) (s : Proxy.St) (upChunk : Bytes)
     let s := Px.dsWrite env s upChunk
     s
 
+/-- `ProxySocket::onUpstreamError` -/
+def ProxySocket_onUpstreamError (env : Env) (s : Proxy.St) : Proxy.St :=
+  let s :=
+    if s.headersParsed then
+      let s := Px.dsClose env s
+      s
+    else
+      let s := Px.dsWriteError env s (502 : Int)
+      s
+  s
+
 /-- `ProxySocket::onUpstreamConnected` -/
 def ProxySocket_onUpstreamConnected (c : Proxy.Cfg) (s : Proxy.St) (fuel : Nat) : Proxy.St :=
   let target : Bytes := (([47] : Bytes) ++ (pctEncode Proxy.pathKeep c.path))
